@@ -202,7 +202,7 @@ impl Checker {
     }
 
     /// logs: per node (whether up or not) the stored events of every partition
-    fn check(&mut self, when: &str, logs: &BTreeMap<usize, BTreeMap<u16, Vec<Stored>>>, writes: &[ClientWrite], coordinators: &BTreeMap<Uuid, usize>) {
+    fn check(&mut self, when: &str, logs: &BTreeMap<usize, BTreeMap<u16, Vec<Stored>>>, writes: &[ClientWrite], coordinators: &BTreeMap<Uuid, BTreeSet<usize>>) {
         self.out.evaluations += 1;
         // C10: one confirmed transaction per sequence, across nodes and across time
         for (node, parts) in logs {
@@ -263,15 +263,19 @@ impl Checker {
             let mut holders = 0usize;
             let mut coordinator_ok = None;
             let mut any_quorum_count = false;
+            let mut where_held: Vec<String> = Vec::new();
             for (node, parts) in logs {
                 let Some(events) = parts.get(&w.partition) else { continue };
                 let whole = w.event_ids.iter().enumerate().all(|(i, id)| events.get(first as usize + i).map(|e| e.event == *id && e.txn == w.txn_id).unwrap_or(false));
                 if whole {
                     holders += 1;
+                    where_held.push(format!("node {node}: counts {:?}", (first..=last).map(|s| events[s as usize].count).collect::<Vec<_>>()));
                     let counted = (first..=last).all(|s| (events[s as usize].count as usize) >= self.quorum);
                     any_quorum_count |= counted;
-                    if coordinators.get(&w.txn_id) == Some(node) {
-                        coordinator_ok = Some(counted);
+                    // the node that coordinated it (one of them, if a duplicated or re-forwarded client
+                    // request was executed by several nodes: the one that reached the quorum)
+                    if coordinators.get(&w.txn_id).map(|c| c.contains(node)).unwrap_or(false) {
+                        coordinator_ok = Some(coordinator_ok.unwrap_or(false) || counted);
                     }
                 }
             }
@@ -289,7 +293,7 @@ impl Checker {
             if holders < self.quorum {
                 self.violation("C11", "acknowledged-write-not-on-quorum", "replica-logs", format!("{when}: transaction {} was acknowledged at partition {} sequences {first}..={last} but only {holders} node(s) store it there (quorum {})", w.txn_id, w.partition, self.quorum));
             } else if coordinator_ok == Some(false) || !any_quorum_count {
-                self.violation("C11", "acknowledged-write-without-quorum-count", "coordinator-log", format!("{when}: transaction {} was acknowledged but carries no quorum confirmation count on its coordinator", w.txn_id));
+                self.violation("C11", "acknowledged-write-without-quorum-count", "coordinator-log", format!("{when}: transaction {} (client node {}, acknowledged at sequences {first}..={last}) carries no quorum confirmation count on its coordinator {:?}; held by [{}]", w.txn_id, w.node, coordinators.get(&w.txn_id), where_held.join("; ")));
             }
         }
     }
